@@ -31,9 +31,19 @@ type World struct {
 	idx          int
 	failed       bool
 	initialAlloc bool
+	delayReleases bool
 	regTotal     int // registered so far (alive or not)
 	roster       []string
+	pending      []pendingRelease // releases a table has been told to make but has not delivered yet
+	transit      map[string]bool  // players of pending releases
+	dead         []string         // ids of tables that were broken (a late report may still arrive)
+	busted       []string         // eliminated players (may re-enter under the same id)
 	rng          *rand.Rand
+}
+
+type pendingRelease struct {
+	id      string
+	players []string
 }
 
 type WorldCase struct {
@@ -108,6 +118,27 @@ func newWorld(prop string, props []string, max, min int, rep *Report, seed int64
 func (w *World) everHadTable() bool { return w.nextT > 1 }
 
 func (w *World) give(id string, players []string, when string) {
+	if when == "open" && len(w.tables[id]) == 0 && len(players) > 0 {
+		// the table keeps the list it was handed as its roster and appends to it later (the repo's own
+		// test callbacks do the same): the regulator must not go on using that memory
+		for _, p := range players {
+			if w.on("C09") {
+				if !w.alive[p] {
+					w.fail("C09/handed-out-eliminated-or-unknown", "when="+when, fmt.Sprintf("player %s handed to %s but is not a live registered player", p, id))
+				}
+				if w.where[p] != "" {
+					w.fail("C09/handed-out-twice", "when="+when, fmt.Sprintf("player %s already sits at %s and is handed to %s", p, w.where[p], id))
+				}
+			}
+			w.where[p] = id
+		}
+		w.tables[id] = players
+		if w.on("C19") && len(w.tables[id]) > w.max {
+			w.rep.Inc("oracle_evaluations")
+			w.fail("C19/above-capacity", "when="+when, fmt.Sprintf("table %s now holds %d players, capacity %d", id, len(w.tables[id]), w.max))
+		}
+		return
+	}
 	for _, p := range players {
 		if w.on("C09") {
 			if !w.alive[p] {
@@ -142,6 +173,26 @@ func (w *World) observable() string {
 	return sb.String()
 }
 
+// deliverPending hands delayed releases to the regulator (all of them, or each with probability 1/2)
+func (w *World) deliverPending(all bool) {
+	var keep []pendingRelease
+	for _, pr := range w.pending {
+		if !all && w.rng.Intn(2) == 0 {
+			keep = append(keep, pr)
+			continue
+		}
+		for _, p := range pr.players {
+			delete(w.transit, p)
+		}
+		w.rep.Inc("releases")
+		w.trace = append(w.trace, fmt.Sprintf("release(%s,%d)", pr.id, len(pr.players)))
+		if err := w.r.ReleasePlayers(pr.id, pr.players); err != nil && w.on("C09") {
+			w.fail("C09/release-refused", "op=release", err.Error())
+		}
+	}
+	w.pending = keep
+}
+
 // quiescent-point check
 func (w *World) check(tag string) {
 	if !w.on("C09") || w.failed {
@@ -170,6 +221,9 @@ func (w *World) check(tag string) {
 		places := inq[p]
 		if w.where[p] != "" {
 			places++
+		}
+		if w.transit[p] {
+			places++ // released by a table, not yet handed back to the regulator
 		}
 		if places == 0 {
 			w.fail("C09/player-dropped", "after="+tag, fmt.Sprintf("live player %s is neither waiting nor at a table", p))
@@ -220,6 +274,20 @@ func (w *World) add(n int) {
 		for i := 0; i < n; i++ {
 			w.nextP++
 			ps = append(ps, fmt.Sprintf("w%d", w.nextP))
+		}
+	}
+	if len(w.busted) > 0 && w.rng.Intn(4) == 0 {
+		// re-entry: an eliminated player registers again under the same id
+		for i := range ps {
+			if len(w.busted) == 0 || w.rng.Intn(2) == 0 {
+				continue
+			}
+			k := w.rng.Intn(len(w.busted))
+			if !w.alive[w.busted[k]] {
+				ps[i] = w.busted[k]
+				w.rep.Inc("class_re_entry")
+			}
+			w.busted = append(w.busted[:k:k], w.busted[k+1:]...)
 		}
 	}
 	w.trace = append(w.trace, fmt.Sprintf("add%d", n))
@@ -276,14 +344,19 @@ func (w *World) setStatus(s int) {
 func (w *World) unknownTable() {
 	w.trace = append(w.trace, "sync(nope)")
 	w.rep.Inc("world_steps")
+	w.rep.Inc("class_unknown_table")
+	name := "no-such-table"
+	if len(w.dead) > 0 && w.rng.Intn(2) == 0 {
+		name = w.dead[w.rng.Intn(len(w.dead))] // the last report of a broken table is delivered once more
+		w.rep.Inc("class_late_report_of_broken_table")
+	}
+	before := w.observable()
+	_, _, err := w.r.SyncState(name, w.rng.Intn(3))
+	t := w.r.GetTable(name)
+	after := w.observable()
 	if !w.on("C09") {
 		return
 	}
-	w.rep.Inc("class_unknown_table")
-	before := w.observable()
-	_, _, err := w.r.SyncState("no-such-table", w.rng.Intn(3))
-	t := w.r.GetTable("no-such-table")
-	after := w.observable()
 	if err != reg.ErrNotFoundTable || t != nil {
 		w.fail("C09/unknown-table-accepted", "op=sync", fmt.Sprintf("SyncState on an unknown table returned %v", err))
 		return
@@ -307,6 +380,7 @@ func (w *World) sync(id string, out int) bool {
 		w.alive[p] = false
 		w.where[p] = ""
 		w.nAlive--
+		w.busted = append(w.busted, p)
 	}
 	w.tables[id] = m
 	w.trace = append(w.trace, fmt.Sprintf("sync(%s,%d)", id, out))
@@ -369,6 +443,22 @@ func (w *World) sync(id string, out int) bool {
 			}
 		}
 	}
+	if broken {
+		w.dead = append(w.dead, id)
+	}
+	if (len(released) > 0 || broken) && w.delayReleases && w.rng.Intn(3) == 0 {
+		// the table delivers its release a little later (other tables report in between)
+		if w.transit == nil {
+			w.transit = map[string]bool{}
+		}
+		for _, p := range released {
+			w.transit[p] = true
+		}
+		w.pending = append(w.pending, pendingRelease{id, released})
+		w.rep.Inc("class_delayed_release")
+		w.trace = append(w.trace, fmt.Sprintf("release-later(%s,%d)", id, len(released)))
+		return asked
+	}
 	if len(released) > 0 || broken {
 		w.rep.Inc("releases")
 		w.trace = append(w.trace, fmt.Sprintf("release(%s,%d)", id, len(released)))
@@ -406,6 +496,7 @@ func (w *World) sweepToFixpoint(bound int) (int, bool) {
 			if w.sync(id, 0) {
 				asked = true
 			}
+			w.deliverPending(true)
 			w.check("sweep")
 			if w.failed {
 				return sweeps, false
@@ -435,8 +526,13 @@ func runWorldHistory(w *World, r *rand.Rand, withSweep bool) {
 		}
 	}()
 	w.rep.Inc("histories")
+	w.delayReleases = r.Intn(3) == 0
 	steps := 3 + r.Intn(58)
 	for s := 0; s < steps && !w.failed; s++ {
+		if len(w.pending) > 0 {
+			w.deliverPending(false)
+			w.check("release")
+		}
 		switch k := r.Intn(20); {
 		case k < 6:
 			n := 1 + r.Intn(3)
@@ -455,7 +551,10 @@ func runWorldHistory(w *World, r *rand.Rand, withSweep bool) {
 			}
 			w.add(n)
 		case k < 8:
-			if w.status < 2 && (w.status == 0 || r.Intn(3) == 0) {
+			if w.status == 1 && r.Intn(8) == 0 {
+				w.setStatus(0) // the competition is paused (back to pending) and resumed later
+				w.rep.Inc("class_paused")
+			} else if w.status < 2 && (w.status == 0 || r.Intn(3) == 0) {
 				w.setStatus(w.status + 1)
 			}
 		case k < 9:
@@ -473,7 +572,14 @@ func runWorldHistory(w *World, r *rand.Rand, withSweep bool) {
 			w.check("sync")
 		}
 	}
-	if withSweep && !w.failed && w.status >= 1 && len(w.tables) > 0 {
+	if len(w.pending) > 0 && !w.failed {
+		w.deliverPending(true)
+		w.check("release")
+	}
+	if withSweep && !w.failed && len(w.tables) > 0 && w.nextT > 0 {
+		if w.status == 0 {
+			w.setStatus(1) // resume before looking for the fixpoint
+		}
 		w.sweepCheck()
 	}
 	if !w.failed {
@@ -510,6 +616,7 @@ func runWorldTournament(w *World, r *rand.Rand) {
 	}()
 	w.rep.Inc("histories")
 	w.rep.Inc("long_tournaments")
+	w.delayReleases = r.Intn(3) == 0
 	w.add(1 + r.Intn(300))
 	w.setStatus(1)
 	for k := 0; k < 5 && !w.failed; k++ {
@@ -535,7 +642,12 @@ func runWorldTournament(w *World, r *rand.Rand) {
 			w.sync(id, r.Intn(4))
 			w.check("sync")
 		}
+		if len(w.pending) > 0 && !w.failed {
+			w.deliverPending(r.Intn(2) == 0)
+			w.check("release")
+		}
 		if r.Intn(4) == 0 && !w.failed && len(w.tables) > 0 {
+			w.deliverPending(true)
 			w.sweepCheck()
 		}
 		if len(w.tables) == 1 && w.status == 2 {
